@@ -125,7 +125,7 @@ def run(r, all_functions=False):
             rep.require(False, f"{q}: the kdtree parameter block was replaced by the module-level object {root[1].rsplit('.', 1)[1]}; its discipline cannot be decided [C20-GLB]")
             continue
         rep.ob("C20-GLB", q, ok, "the only module-level store is the audited kdtree parameter block", where_of(r.P, r.P.functions[q], e.node), expected="no store to module-level state",
-               found=w, key=f"global store {root[1]}")
+               found=w, key=f"global store {root[1]}", lint=root[1].startswith("pyrepseq.") and root[1] != "pyrepseq.nn._cal_params")
     rep.require(len(gl) >= 1, "C20-GLB: the kdtree parameter-block store was not found (anchor vanished)")
     from ._nn import check_pool
     check_pool(r, "C20-GLB")
